@@ -88,6 +88,13 @@ class ModuleEnv(Env):
             head = dotted.split(".")[0]
             if head in self.stand_ins and "." not in dotted:
                 return self.stand_ins[head]
+            if head == "math":
+                import math as _math
+                from .pyinterp import StubCall
+                leaf_ = dotted.split(".", 1)[1] if "." in dotted else None
+                if leaf_ and hasattr(_math, leaf_):
+                    v_ = getattr(_math, leaf_)
+                    return StubCall(v_) if callable(v_) else v_
             # name imported from another module of the package
             modname, _, leaf = dotted.rpartition(".")
             other = self._env_of(modname)
